@@ -7,7 +7,7 @@ import itertools
 import random
 import re
 
-from .gen import Gen, PhasedGen, BigGen, ScaleGen, POINTS
+from .gen import Gen, PhasedGen, BigGen, ScaleGen, TSweepGen, POINTS
 from .poolsim import Sim, run_sim
 from .shrink import shrink
 from .util import subseed
@@ -136,6 +136,10 @@ def units(prop, tier, seed):
                 yield ("hrand", (tag, subseed(seed, prop, "hrand", tag, i)), next(order))
         for i in range(QUICK_HUGE):
             yield ("huge", (i, subseed(seed, prop, "huge", i)), next(order))
+        for K in TSweepGen.KS:
+            for off in range(12):
+                for variant in range(3):
+                    yield ("tsweep", (K, off, variant, subseed(seed, prop, "tsweep", K, off, variant)), next(order))
         for i in range(QUICK_BIG):
             yield ("big", subseed(seed, prop, "big", i), next(order))
         for i in range(QUICK_PHASED):
@@ -156,6 +160,8 @@ def units(prop, tier, seed):
                 i += 1
             yield ("huge", (i // 68, subseed(seed, prop, "huge", i)), next(order))
             i += 1
+            K = TSweepGen.KS[(i // 68) % len(TSweepGen.KS)]
+            yield ("tsweep", (K, (i // 68) % 14, i % 3, subseed(seed, prop, "tsweep", i)), next(order))
             for tag in un:
                 for _ in range(8):
                     yield ("hrand", (tag, subseed(seed, prop, "hrand", tag, i)), next(order))
@@ -198,6 +204,17 @@ def exec_unit(prop, unit, agg):
         sim = Sim(run, {prop})
         sim.execute(g.next_step)
         _account(prop, sim, agg, order, "rand")
+    elif kind == "tsweep":
+        K, off, variant, sd = arg
+        g = TSweepGen(sd, prop, K, off, variant)
+        run = {"prop": prop, "seed": sd, "clean": True, "config": g.make_config(), "steps": [], "tsweep": [K, off, variant],
+               "max_handles": 400000, "idle_cap": 200000}
+        sim = Sim(run, {prop})
+        sim.execute(g.next_step)
+        agg.stats["probe:tsweep_K%d" % K] += 1
+        if sim.hit_cap:
+            agg.stats["probe:huge_run_hit_handle_cap"] += 1
+        _account(prop, sim, agg, order, "tsweep", sample=False)
     elif kind == "huge":
         idx, arg = arg
         g = ScaleGen(arg, prop, True, index=idx)
